@@ -132,9 +132,9 @@ pub fn run(cfg: &Cfg) -> i32 {
     let thorough = cfg.thorough();
     let ns: Vec<usize> = if thorough { vec![0, 1, 2, 3, 5] } else { vec![0, 2] };
     let kinds: Vec<FaultKind> = if thorough {
-        vec![FaultKind::RpcError, FaultKind::WarningThenOk, FaultKind::NoPositive, FaultKind::NotXml, FaultKind::Truncated, FaultKind::WrongMessageId, FaultKind::CloseBefore, FaultKind::CloseAfter, FaultKind::StallThenClose, FaultKind::DelayedRpcError, FaultKind::ErrorThenOk, FaultKind::ErrorWarningThenOk, FaultKind::ForeignError, FaultKind::ErrorReplyThenSecondPositiveReply, FaultKind::ErrorRootThenPositiveRootSameId, FaultKind::ErrorRootThenPositiveRootOtherId, FaultKind::NotUtf8InComment, FaultKind::NotUtf8InWarningText]
+        vec![FaultKind::RpcError, FaultKind::WarningThenOk, FaultKind::NoPositive, FaultKind::NotXml, FaultKind::Truncated, FaultKind::WrongMessageId, FaultKind::CloseBefore, FaultKind::CloseAfter, FaultKind::StallThenClose, FaultKind::DelayedRpcError, FaultKind::ErrorThenOk, FaultKind::ErrorWarningThenOk, FaultKind::ForeignError, FaultKind::ErrorReplyThenSecondPositiveReply, FaultKind::ErrorRootThenPositiveRootSameId, FaultKind::ErrorRootThenPositiveRootOtherId, FaultKind::NotUtf8InComment, FaultKind::NotUtf8InWarningText, FaultKind::PositiveThenRpcError]
     } else {
-        vec![FaultKind::RpcError, FaultKind::NoPositive, FaultKind::WrongMessageId, FaultKind::CloseBefore, FaultKind::DelayedRpcError, FaultKind::ErrorThenOk, FaultKind::ErrorWarningThenOk, FaultKind::ForeignError, FaultKind::ErrorReplyThenSecondPositiveReply, FaultKind::ErrorRootThenPositiveRootSameId, FaultKind::ErrorRootThenPositiveRootOtherId, FaultKind::NotUtf8InComment, FaultKind::NotUtf8InWarningText]
+        vec![FaultKind::RpcError, FaultKind::NoPositive, FaultKind::WrongMessageId, FaultKind::CloseBefore, FaultKind::DelayedRpcError, FaultKind::ErrorThenOk, FaultKind::ErrorWarningThenOk, FaultKind::ForeignError, FaultKind::ErrorReplyThenSecondPositiveReply, FaultKind::ErrorRootThenPositiveRootSameId, FaultKind::ErrorRootThenPositiveRootOtherId, FaultKind::NotUtf8InComment, FaultKind::NotUtf8InWarningText, FaultKind::PositiveThenRpcError]
     };
     let mut cases: Vec<Case> = Vec::new();
     for &n in &ns {
@@ -150,7 +150,7 @@ pub fn run(cfg: &Cfg) -> i32 {
                     FaultKind::ErrorThenOk | FaultKind::ErrorWarningThenOk | FaultKind::DelayedRpcError | FaultKind::ErrorRootThenPositiveRootSameId | FaultKind::ErrorRootThenPositiveRootOtherId | FaultKind::NotUtf8InWarningText => op == "load-configuration",
                     FaultKind::ErrorReplyThenSecondPositiveReply => op == "load-configuration" && occ >= 1,
                     FaultKind::HoldOk => false,
-                    FaultKind::RpcError | FaultKind::WarningThenOk | FaultKind::NoPositive | FaultKind::WrongMessageId | FaultKind::CloseAfter | FaultKind::ForeignError | FaultKind::NotUtf8InComment => op != "hello",
+                    FaultKind::RpcError | FaultKind::WarningThenOk | FaultKind::NoPositive | FaultKind::WrongMessageId | FaultKind::CloseAfter | FaultKind::ForeignError | FaultKind::NotUtf8InComment | FaultKind::PositiveThenRpcError => op != "hello" && op != "open-configuration" && op != "close-configuration",
                     _ => true,
                 };
                 if applicable {
@@ -159,8 +159,14 @@ pub fn run(cfg: &Cfg) -> i32 {
             }
         }
     }
+    // a run with many loads (one per policy): an error reply to an early, a middle and a late one
+    for (n, occs) in [(40usize, vec![4usize, 30, 31, 32, 36, 39])] {
+        for occ in occs {
+            cases.push(Case { n, op: "load-configuration".into(), occ, kind: FaultKind::RpcError });
+        }
+    }
     let cases: Vec<Case> = cases.into_iter().enumerate().filter(|(i, _)| (*i as u64) % cfg.shards == cfg.shard).map(|(_, c)| c).collect();
-    let irr = match Server::start(simple_db(6), Faults::default()) {
+    let irr = match Server::start(simple_db(41), Faults::default()) {
         Ok(s) => s,
         Err(e) => {
             eprintln!("fake irrd: {e}");
